@@ -135,7 +135,7 @@ func compact(sb *strings.Builder, v *Val) {
 	case Num:
 		sb.WriteString(strconv.FormatFloat(v.N, 'g', -1, 64))
 	case Str:
-		sb.WriteString(strconv.Quote(v.S))
+		sb.WriteString(Quote(v.S))
 	case Arr:
 		sb.WriteByte('[')
 		for i, it := range v.Items {
@@ -153,12 +153,31 @@ func compact(sb *strings.Builder, v *Val) {
 			if i > 0 {
 				sb.WriteByte(',')
 			}
-			sb.WriteString(strconv.Quote(k))
+			sb.WriteString(Quote(k))
 			sb.WriteByte(':')
 			compact(sb, v.Get(k))
 		}
 		sb.WriteByte('}')
 	}
+}
+
+// Quote spells a string as a JSON string literal (invalid UTF-8 becomes U+FFFD).
+func Quote(s string) string {
+	var sb strings.Builder
+	sb.WriteByte('"')
+	for _, r := range s {
+		switch {
+		case r == '"' || r == '\\':
+			sb.WriteByte('\\')
+			sb.WriteRune(r)
+		case r < 0x20:
+			fmt.Fprintf(&sb, "\\u%04x", r)
+		default:
+			sb.WriteRune(r)
+		}
+	}
+	sb.WriteByte('"')
+	return sb.String()
 }
 
 // ---- strict parser ------------------------------------------------------------------
